@@ -177,6 +177,8 @@ struct OneShotSim : Sim {
         void op_keyexp(const Op &o, Env &e, RunResult &r)
         {
                 int k = (int) (o.a % 3), kf = (int) ((o.a >> 2) & 1), api = (int) ((o.a >> 3) % 3);
+                if (g_force_family_api && api == 1)
+                        api = 0;
                 uint8_t *key = e.mem.alloc(KB[k], 1, (Place) (o.d % 3), nullptr, "raw key", R_INPUT, (size_t) ((o.d >> 2) % 64));
                 Rng g((uint64_t) o.c, "key");
                 g.fill(key, KB[k]);
@@ -231,7 +233,7 @@ struct OneShotSim : Sim {
 
         void op_cbc(const Op &o, Env &e, RunResult &r)
         {
-                int k = (int) (o.a % 3), ef = (int) ((o.a >> 2) % 2), df = (int) ((o.a >> 3) % 3), api = (int) ((o.a >> 5) % 2), inplace = (int) ((o.a >> 6) % 2);
+                int k = (int) (o.a % 3), ef = (int) ((o.a >> 2) % 2), df = (int) ((o.a >> 3) % 3), api = g_force_family_api ? 0 : (int) ((o.a >> 5) % 2), inplace = (int) ((o.a >> 6) % 2);
                 size_t len = len_class(OK_CBC, o.b);
                 uint8_t *key = e.mem.alloc(KB[k], 1, END_FLUSH, nullptr, "raw key", R_INPUT);
                 Rng g((uint64_t) o.c, "cbc");
@@ -310,7 +312,7 @@ struct OneShotSim : Sim {
 
         void op_xts(const Op &o, Env &e, RunResult &r)
         {
-                int ks = (int) (o.a % 2), f = (int) ((o.a >> 1) % 3), ex = (int) ((o.a >> 3) % 2), api = (int) ((o.a >> 4) % 2), inplace = (int) ((o.a >> 5) % 2);
+                int ks = (int) (o.a % 2), f = (int) ((o.a >> 1) % 3), ex = (int) ((o.a >> 3) % 2), api = g_force_family_api ? 0 : (int) ((o.a >> 4) % 2), inplace = (int) ((o.a >> 5) % 2);
                 int k = ks ? 2 : 0;
                 size_t len = len_class(OK_XTS, o.b);
                 Rng g((uint64_t) o.c, "xts");
@@ -386,7 +388,7 @@ struct OneShotSim : Sim {
 
         void op_gcm(const Op &o, Env &e, RunResult &r)
         {
-                int ks = (int) (o.a % 2), f = (int) ((o.a >> 1) % 4), nt = (int) ((o.a >> 3) % 4 == 0), api = (int) ((o.a >> 5) % 2), inplace = (int) ((o.a >> 6) % 2);
+                int ks = (int) (o.a % 2), f = (int) ((o.a >> 1) % 4), nt = (int) ((o.a >> 3) % 4 == 0), api = g_force_family_api ? 0 : (int) ((o.a >> 5) % 2), inplace = (int) ((o.a >> 6) % 2);
                 int k = ks ? 2 : 0;
                 int bits = BITS[k];
                 size_t len = len_class(OK_GCM, o.b);
